@@ -12,6 +12,7 @@ R10.8  no function on the generation path that reads a file / directory / enviro
 R10.9  the non-force comparison leaves no generated file out (no filtered file list, no skip in the loop)                        [= R9.4]
 R10.10 both generation branches create ancestor __init__.py files for the same directories (an unchanged nested-core client matches)    [= R9.10]
 R10.11 every ruff sub-process is started with `--no-cache` (no `.ruff_cache/` in the project root / current directory)
+R10.12 every ruff sub-process runs `--isolated` (the temporary tree and the real tree are formatted alike)                     [= R9.14]
 R10.5  temp cleanup is structural (`with tempfile.TemporaryDirectory()` encloses all temp generation) and the
        diff result raises before anything else happens
 """
@@ -415,6 +416,7 @@ def run(repo: Repo, rep: Report, tier: str) -> None:
 
     _reuse1010(repo, rep, "c09", {"R9.10": "R10.10"})
     rule_formatter_writes_no_cache(repo, rep, "R10.11")
+    rule_formatter_is_isolated(repo, rep, "R10.12")  # "on a match it succeeds": both trees are formatted under the same configuration   [= R9.14]
 
     # ---------------------------------------------------------------- R10.2 / R10.3 sinks over the generation path
     live = repo.import_closure(["generator.client_generator"])
@@ -817,3 +819,30 @@ def rule_formatter_writes_no_cache(repo: Repo, rep, rule: str = "R10.11") -> Non
                       "packages, also in a no-force run that reports no differences", f"{pm.relpath}:{c.lineno}")
     if not hz and n:
         rep.ok(rule, f"{pm.relpath} ruff invocations", f"all {n} pass `--no-cache`", f"{pm.relpath}:1")
+
+
+def rule_formatter_is_isolated(repo: Repo, rep, rule: str = "R9.14") -> None:
+    """The generated files are formatted in place: in a direct run inside the target project (ruff applies that project's pyproject.toml /
+    ruff.toml: line length, quote style, isort sections), in the compare-only run inside a temporary directory (ruff defaults, or whatever
+    the current directory configures).  Unless every invocation passes `--isolated` (or an explicit `--config`), the bytes depend on the
+    output location and an immediate re-run over a project that configures ruff reports differences."""
+    pm = repo.module("core.postprocess_manager")
+    n = 0
+    bad = []
+    for c in ast.walk(pm.tree):
+        if not (isinstance(c, ast.Call) and (dotted(c.func) or "").split(".")[-1] in ("run", "Popen", "check_call", "check_output", "call") and c.args):
+            continue
+        consts = [x.value for x in ast.walk(c.args[0]) if isinstance(x, ast.Constant) and isinstance(x.value, str)]
+        if "ruff" not in consts:
+            continue
+        n += 1
+        if not any(v == "--isolated" or v.startswith("--config") for v in consts):
+            bad.append(c)
+    rep.count(f"{rule}:ruff_invocations", n)
+    rep.require(n >= 3, f"{rule}: only {n} ruff invocations found in the post-processor (floor 3)")
+    for c in bad:
+        rep.violation(rule, f"{pm.relpath}:{c.lineno} ruff invocation", f"{pm.name}|ruff-reads-project-config|L{[x.value for x in ast.walk(c.args[0]) if isinstance(x, ast.Constant) and isinstance(x.value, str)][3:5]}",
+                      "ruff is started without `--isolated` / `--config`: it formats with the configuration of wherever the files lie - the target project's in a direct run, none "
+                      "in the temporary tree of the compare-only run - so the output depends on the location and an unchanged client 'differs' on re-run", f"{pm.relpath}:{c.lineno}")
+    if not bad and n:
+        rep.ok(rule, f"{pm.relpath} ruff invocations", f"all {n} pass `--isolated`", f"{pm.relpath}:1")
